@@ -500,7 +500,7 @@ func init() {
 					}
 					want := strings.Join(p.Stdout, "\n")
 					got := strings.TrimSuffix(o.CLI.Stdout, "\n")
-					if want != got && !o.Scenario.StdoutFull {
+					if want != got {
 						diffs = append(diffs, fmt.Sprintf("stdout: model %d bytes, impl %d bytes", len(want), len(got)))
 					}
 					mw := map[string]bool{}
@@ -1044,7 +1044,7 @@ func runScenario(cli string, drv *Driver, work string, sc RunScenario, ref coreR
 		files = append(files, input)
 	}
 	var pred RunPrediction
-	err := drv.call(map[string]any{"op": "run", "argv": argv, "gofile": sc.Gofile, "files": files, "dirs": dirs,
+	err := drv.call(map[string]any{"op": "run", "argv": argv, "gofile": sc.Gofile, "files": files, "dirs": dirs, "stdoutFull": sc.StdoutFull,
 		"core": map[string]any{"kind": ref.Kind, "bytes": ref.Bytes, "stderr": ref.Stderr}}, &pred)
 	if err != nil {
 		return o, nil
